@@ -226,7 +226,7 @@ func (o *Oracle) fillChunk(progs []*Program) error {
 	// run, restarting after a program that kills the process
 	from := 0
 	for from < len(live) {
-		ctx, cancel := context.WithTimeout(context.Background(), 120*time.Second)
+		ctx, cancel := context.WithTimeout(context.Background(), 40*time.Second)
 		cmd := exec.CommandContext(ctx, bin, fmt.Sprint(from))
 		var so, se bytes.Buffer
 		cmd.Stdout, cmd.Stderr = &so, &se
